@@ -260,6 +260,9 @@ def ncores():
     return max(1, min(n, int(os.environ.get("VERIF_JOBS", "16"))))
 
 
+HARNESS_ERRORS = []
+
+
 def pmap(fn, units, jobs=None):
     """Run fn(unit) -> Agg (or any picklable) for every unit, in forked workers."""
     global _WORK_FN
@@ -279,11 +282,18 @@ def pmap(fn, units, jobs=None):
         except BrokenProcessPool as e:
             sys.stderr.write("HARNESS-ERROR: a worker process died (" + repr(e)[:200] + ")\n")
             sys.exit(2)
+    # A unit that crashed in HARNESS code is remembered, not fatal at once: if other units report violations those are what the run
+    # says (a change to the library can trip the harness in one unit and break the property visibly in another); the runner turns
+    # a remembered crash into exit 2 when no violation was found - a crashed unit is never counted as "held".
+    clean = []
     for r in out:
         if isinstance(r, tuple) and r and r[0] == "__HARNESS_ERROR__":
             sys.stderr.write("HARNESS-ERROR in worker: " + r[1] + "\n")
-            sys.exit(2)
-    return out
+            HARNESS_ERRORS.append(r[1].split("\n")[0][:300])
+            clean.append(Agg())
+        else:
+            clean.append(r)
+    return clean
 
 
 def merge_all(aggs):
